@@ -6,6 +6,7 @@ import (
 	"path/filepath"
 	"sort"
 	"strings"
+	"sync/atomic"
 	"time"
 
 	"github.com/miekg/dns"
@@ -122,7 +123,12 @@ func sortedInts(l []int) []int {
 }
 
 // RunSched executes the schedule of c against a fresh handler in its own world directory.
+var Prof [6]int64
+
 func RunSched(pool *Pool, dir string, c *Case, cacheOverride *bool) (steps []Step, resps []Resp, relerr []string, errs string) {
+	t0 := time.Now()
+	lap := func(i int) { atomic.AddInt64(&Prof[i], int64(time.Since(t0))); t0 = time.Now() }
+	defer lap(5)
 	if err := os.MkdirAll(dir, 0o755); err != nil {
 		return nil, nil, nil, err.Error()
 	}
@@ -135,6 +141,7 @@ func RunSched(pool *Pool, dir string, c *Case, cacheOverride *bool) (steps []Ste
 		}
 		disk[e.Path] = e.File
 	}
+	lap(0)
 	cfg := c.Cfg
 	if cacheOverride != nil {
 		cfg.Cache = *cacheOverride
@@ -147,8 +154,10 @@ func RunSched(pool *Pool, dir string, c *Case, cacheOverride *bool) (steps []Ste
 	if err != nil {
 		return nil, nil, nil, "handler: " + err.Error()
 	}
+	lap(1)
 	r := NewRunner(w, h, st, disk, c.Threads)
 	r.Run(c.Sched)
+	lap(2)
 	// normalise the stamp lists (set semantics)
 	for i := range r.Resps {
 		r.Resps[i].Ans = sortedInts(r.Resps[i].Ans)
@@ -163,6 +172,7 @@ func RunSched(pool *Pool, dir string, c *Case, cacheOverride *bool) (steps []Ste
 			r.Err = "deadlock: handler Close never returned"
 		}
 	}
+	lap(3)
 	return r.Steps, r.Resps, r.RelErr, r.Err
 }
 
